@@ -10,7 +10,8 @@ import ast
 import hashlib
 import itertools
 import z3
-from .types import (Ty, INT, BOOL, STR, ATOM, BYTES, REAL, Ref, Enum, SetOf, SeqOf, Opt, MapOf, Rec, ListOf, atom)
+from .types import (Ty, INT, BOOL, STR, ATOM, BYTES, REAL, Ref, Enum, SetOf, SeqOf, Opt, MapOf, Rec, ListOf, atom, strlit)
+from . import types as _types
 
 
 class Unsupported(Exception):
@@ -372,6 +373,13 @@ class Exec:
 
     # ---- driver
     def run(self):
+        try:
+            _types.OPAQUE[0] = bool(getattr(self.k, 'opaque_strings', False))
+            return self._run()
+        finally:
+            _types.OPAQUE[0] = False
+
+    def _run(self):
         stack = [[]]
         while stack:
             prefix = stack.pop()
@@ -390,6 +398,8 @@ class Exec:
         self.st = State()
         st = self.st
         k = self.k
+        self.opaque_strings = bool(getattr(k, 'opaque_strings', False))     # inherited by inlined callees
+        _types.OPAQUE[0] = self.opaque_strings
         self.inputs = {}
         self.world.init_state(self, st)
         args = {}
@@ -433,8 +443,9 @@ class Exec:
         self.old = st.snap()
         c = SpecCtx(self, args, self.old, self.old)
         self.prove_ctx = c
-        for f in self._clauses(getattr(k, 'requires', None), c).values():
-            self.assume(f)
+        creq = SpecCtx(self, args, self.old, self.old, mode='assume')
+        for f in self._clauses(getattr(k, 'requires', None), creq).values():
+            self._assume_clause(f, creq, 'requires')        # pointwise preconditions hold for every point
         for q in self.world.invariants(self, c):
             if isinstance(q, QHyp):
                 st.qh.append(q)
@@ -582,7 +593,7 @@ class Exec:
         if ty == ATOM:
             return atom(v)
         if ty == STR:
-            return z3.StringVal(v)
+            return strlit(v)
         if ty == BYTES:
             if len(v) == 0:
                 return z3.Empty(BYTES.sort())
@@ -594,6 +605,11 @@ class Exec:
             t = ty.empty()
             for e in v:
                 t = z3.Store(t, self.to_z3(e, ty.elem), True)
+            return t
+        if isinstance(ty, MapOf) and isinstance(v, dict):
+            t = ty.empty()
+            for k2, v2 in v.items():
+                t = z3.Store(t, self.to_z3(k2, ty.k), ty.opt.some(self.to_z3(v2, ty.v)))
             return t
         if isinstance(ty, ListOf):
             arr = ty.arr(ty.empty())
@@ -644,6 +660,8 @@ class Exec:
                 return v.t
             if ty == INT:
                 return v.t != 0
+            if ty == STR and self.opaque_strings:
+                return v.t != strlit('')
             if ty == STR:
                 return z3.Length(v.t) > 0
             if ty == BYTES:
@@ -1274,6 +1292,9 @@ class Exec:
             if isinstance(op, ast.Mod):
                 self.vc('safe.div0@%d' % line, tb != 0, line)
                 return V(_pymod(ta, tb), INT)
+        if ty == STR and isinstance(op, ast.Add) and self.opaque_strings:
+            f = z3.Function('str_concat', STR.sort(), STR.sort(), STR.sort())
+            return V(f(self.to_z3(a, ty), self.to_z3(b, ty)), ty)
         if ty in (STR, BYTES) and isinstance(op, ast.Add):
             return V(z3.Concat(self.to_z3(a, ty), self.to_z3(b, ty)), ty)
         raise Unsupported('binop %s on %s' % (type(op).__name__, ty))
@@ -1365,6 +1386,10 @@ class Exec:
             return self.newbox(ty.mk(cnt, z3.Lambda([j], ty.arr(t)[j + lo_t])), ty)
         if isinstance(base, C) and isinstance(base.ty, SeqOf):
             t, ty = self.read(base), base.ty
+        elif isinstance(base, V) and base.ty == STR and self.opaque_strings:
+            # strings whose content is irrelevant to the contract: operations are uninterpreted functions of their arguments
+            f = z3.Function('str_slice', STR.sort(), z3.IntSort(), z3.IntSort(), STR.sort())
+            return V(f(base.t, self._num(lo) if lo is not None else z3.IntVal(0), self._num(hi) if hi is not None else z3.IntVal(-1)), STR)
         elif isinstance(base, V) and base.ty in (STR, BYTES):
             t, ty = base.t, base.ty
         elif isinstance(base, (bytes, str)):
@@ -1814,7 +1839,8 @@ class Exec:
                 x_t = self.fresh('x', elem_ty)
                 self.assume(it_term[x_t])
                 self.assume(z3.Not(done[x_t]))
-                self.assume(_subset(done, it_term, elem_ty, self))
+                qd = z3.Const(self.path.fresh_name('qd'), elem_ty.sort())
+                self.st.qh.append(QHyp([qd], z3.Implies(done[qd], it_term[qd]), 'done-subset-of-iterated'))
                 done_next = z3.Store(done, x_t, True)
             for f in inv_at(self.st.snap(), done, 'assume', x_t).values():
                 self.assume(f)
